@@ -305,12 +305,17 @@ class KaniResult:
         self.log = ""
 
 
-def run_kani(prop, crate, harnesses, tier, extra_args=(), jobs=12, timeout=3000):
-    cdir = os.path.join(ROOT, "kani", crate)
-    shutil.copyfile(os.path.join(REPO, "Cargo.lock"), os.path.join(cdir, "Cargo.lock"))
+def run_kani(prop, crate, harnesses, tier, extra_args=(), jobs=12, timeout=3000, repo_crate=None):
+    if repo_crate:
+        # harness sources live in /verif/hooks and enter the REAL crate through its guarded hook line
+        cdir = os.path.join(REPO, "crates", repo_crate)
+        crate = "repo_" + repo_crate
+    else:
+        cdir = os.path.join(ROOT, "kani", crate)
+        shutil.copyfile(os.path.join(REPO, "Cargo.lock"), os.path.join(cdir, "Cargo.lock"))
     env = dict(os.environ)
     env["CARGO_NET_OFFLINE"] = "true"
-    env["CARGO_TARGET_DIR"] = os.path.join(OUT, "target-kani")
+    env["CARGO_TARGET_DIR"] = os.path.join(OUT, "target-kani" + ("-" + repo_crate if repo_crate else ""))
     env["QBICE_VERIF_DIR"] = ROOT
     cmd = ["cargo", "kani", "-Z", "stubbing", "-Z", "function-contracts", "--output-format", "terse", "-j", str(jobs)]
     cmd += list(extra_args)
@@ -324,7 +329,7 @@ def run_kani(prop, crate, harnesses, tier, extra_args=(), jobs=12, timeout=3000)
         out = (e.stdout or b"").decode() if isinstance(e.stdout, bytes) else (e.stdout or "")
         out += "\nTIMEOUT"
     kr = KaniResult()
-    kr.cmd = "cd kani/%s && CARGO_NET_OFFLINE=true %s" % (crate, " ".join(cmd))
+    kr.cmd = "cd %s && QBICE_VERIF_DIR=/verif CARGO_NET_OFFLINE=true %s" % (cdir, " ".join(cmd))
     kr.wall = time.time() - t0
     kr.log = out
     os.makedirs(os.path.join(OUT, prop), exist_ok=True)
@@ -374,6 +379,65 @@ def run_kani(prop, crate, harnesses, tier, extra_args=(), jobs=12, timeout=3000)
         d["block"] = b[:6000]
         kr.harnesses[short] = d
     return kr
+
+
+# ------------------------------------------------------------------ native bounded runs on the real crate (through the hook)
+class NativeResult:
+    def __init__(self):
+        self.ok = False
+        self.violation = None
+        self.cases = 0
+        self.cmd = ""
+        self.wall = 0.0
+        self.undecided = None
+
+
+def run_native(prop, step, tier):
+    """step: dict(name, repo_crate, test, env, miri(bool), ok_re, bad_re). Runs `cargo test` of one hook test in the real crate
+    with --cfg qbice_verif (optionally under Miri)."""
+    cdir = os.path.join(REPO, "crates", step["repo_crate"])
+    env = dict(os.environ)
+    env["CARGO_NET_OFFLINE"] = "true"
+    env["QBICE_VERIF_DIR"] = ROOT
+    env["RUSTFLAGS"] = (env.get("RUSTFLAGS", "") + " --cfg qbice_verif").strip()
+    for k, v in step.get("env", {}).items():
+        env[k] = str(v)
+    if step.get("miri"):
+        env["CARGO_TARGET_DIR"] = os.path.join(OUT, "target-miri")
+        env["MIRIFLAGS"] = "-Zmiri-disable-isolation"
+        cmd = ["cargo", "+nightly", "miri", "test", "--offline", "-p", step["package"], "--lib", step["test"], "--", "--nocapture"]
+    else:
+        env["CARGO_TARGET_DIR"] = os.path.join(OUT, "target-hook")
+        cmd = ["cargo", "test", "--offline", "-p", step["package"], "--lib", step["test"], "--", "--nocapture"]
+    t0 = time.time()
+    nr = NativeResult()
+    nr.cmd = "cd %s && RUSTFLAGS='--cfg qbice_verif' QBICE_VERIF_DIR=/verif %s %s" % (cdir, " ".join(f"{k}={v}" for k, v in step.get("env", {}).items()), " ".join(cmd))
+    try:
+        p = subprocess.run(cmd, cwd=cdir, env=env, stdout=subprocess.PIPE, stderr=subprocess.STDOUT, text=True, timeout=step.get("timeout", 3000))
+        out = p.stdout
+    except subprocess.TimeoutExpired:
+        nr.undecided = f"{step['name']}: timeout"
+        return nr
+    nr.wall = time.time() - t0
+    os.makedirs(os.path.join(OUT, prop), exist_ok=True)
+    with open(os.path.join(OUT, prop, f"native_{step['name']}.log"), "w") as f:
+        f.write(out)
+    m = re.search(step["ok_re"], out)
+    b = re.search(step["bad_re"], out)
+    if b:
+        nr.violation = b.group(0)[:1500]
+    elif "Undefined Behavior" in out or "error: memory leaked" in out:
+        i = out.find("Undefined Behavior") if "Undefined Behavior" in out else out.find("memory leaked")
+        nr.violation = "Miri: " + out[max(0, i - 200):i + 1200]
+    elif m and p.returncode == 0:
+        nr.ok = True
+        try:
+            nr.cases = int(m.group(1))
+        except Exception:
+            nr.cases = 1
+    else:
+        nr.undecided = f"{step['name']}: no result line (build failure or tool limit):\n" + out[-1500:]
+    return nr
 
 
 # ------------------------------------------------------------------ known findings
